@@ -109,6 +109,21 @@ func reservedNames(g *Grammar) error {
 	for _, prod := range g.SyntaxPart.ProdList {
 		prods[prod.Id] = true
 	}
+	// a token id and a string literal of the same spelling would share one token number
+	toks := make(map[string]bool)
+	for _, p := range g.LexPart.ProdList.Productions {
+		if p.Id() == "error" || p.Id() == "empty" {
+			return fmt.Errorf("lexical production name %q is reserved", p.Id())
+		}
+		toks[p.Id()] = true
+	}
+	for _, prod := range g.SyntaxPart.ProdList {
+		for _, s := range prod.Body.Symbols {
+			if id, ok := s.(SyntaxTokId); ok && id.SymbolString() != "error" && id.SymbolString() != "empty" {
+				toks[id.SymbolString()] = true
+			}
+		}
+	}
 	for _, prod := range g.SyntaxPart.ProdList {
 		if reserved[prod.Id] {
 			return fmt.Errorf("production name %q is reserved", prod.Id)
@@ -120,6 +135,9 @@ func reservedNames(g *Grammar) error {
 				}
 				if prods[lit.SymbolString()] {
 					return fmt.Errorf("string literal %s in production %q is spelled like the production %s", lit, prod.Id, lit.SymbolString())
+				}
+				if toks[lit.SymbolString()] {
+					return fmt.Errorf("string literal %s in production %q is spelled like the token %s", lit, prod.Id, lit.SymbolString())
 				}
 			} else if s.SymbolString() == "empty" && len(prod.Body.Symbols) > 1 {
 				return fmt.Errorf("\"empty\" must be the only symbol of its alternative in production %q", prod.Id)
